@@ -32,8 +32,9 @@ func (node *tagForNode) Execute(ctx *ExecutionContext, writer TemplateWriter) (f
 	}
 
 	// Is it a loop in a loop?
-	if parentloop != nil {
-		loopInfo.Parentloop = parentloop.(*tagForLoopInformation)
+	if parentloop, ok := parentloop.(*tagForLoopInformation); ok {
+		// (a template may have bound the name forloop to a value of its own)
+		loopInfo.Parentloop = parentloop
 	}
 
 	// Register loopInfo in public context
